@@ -172,3 +172,19 @@ Proof.
   rewrite Hs in Hs2. inversion Hs2; subst t2. rewrite Ha. cbn [g_step]. rewrite ncols_abs.
   apply delete_column_shifts_every_row; auto. split; [apply norm_coord_nonneg, twidth_nonneg|exact Hin].
 Qed.
+
+(* set_row: exactly the rep addressed rows become the new row, every other row keeps its content *)
+Theorem set_row_local t y rep r t' : WF t -> (1 <= rep)%nat -> rwf r -> t_step t (OSetRow y rep r) = Some t' ->
+  forall y', 0 <= y' ->
+  g_row y' (abs_t t') = if (ny y t <=? y') && (y' <? ny y t + Z.of_nat rep) then grow_of r else g_row y' (abs_t t).
+Proof.
+  intros Hwf Hrep Hr Hs y' Hy'. destruct (step_refines t (OSetRow y rep r) Hwf (conj Hrep Hr)) as (t2 & Hs2 & _ & Ha).
+  rewrite Hs in Hs2. inversion Hs2; subst t2. rewrite Ha. cbn [g_step]. rewrite gheight_abs.
+  change (norm_coord y (theight t)) with (ny y t).
+  assert (Hny : 0 <= ny y t) by apply norm_coord_nonneg, theight_nonneg.
+  destruct (Z.leb_spec (ny y t) y'); destruct (Z.ltb_spec y' (ny y t + Z.of_nat rep)); cbn [andb].
+  - apply g_row_set_row_same; lia.
+  - apply g_row_set_row_other; lia.
+  - apply g_row_set_row_other; lia.
+  - apply g_row_set_row_other; lia.
+Qed.
